@@ -58,6 +58,11 @@ def pyFloorDiv (a b : Int) : R Int := if b = 0 then .error .zeroDivision else .o
 /-- Python `a % b` with a run-time divisor -/
 def pyFloorMod (a b : Int) : R Int := if b = 0 then .error .zeroDivision else .ok (Int.fmod a b)
 
+/-- the builtin `len(x)` applied to the value `x.__len__()` returned: CPython raises ValueError for a negative
+    result and OverflowError for one above `sys.maxsize` (2^63 - 1 on the supported 64-bit builds) -/
+def pyLen (n : Int) : R Int :=
+  if n < 0 then .error .valueError else if n > 9223372036854775807 then .error .overflowError else .ok n
+
 /-- `_Preconditions._check_argument(expression, parameter, message)`: ValueError when the expression is false -/
 def checkArgument (b : Bool) : R Unit := if b then .ok () else .error .valueError
 /-- `_Preconditions._check_state(expression, message)`: RuntimeError when the expression is false -/
